@@ -455,3 +455,147 @@ func HasSuffixAny(s string, suf ...string) bool {
 	}
 	return false
 }
+
+// Cnt is the minimum and maximum number of events on the paths reaching a
+// point, both capped at 2 ("many").
+type Cnt struct{ Min, Max int }
+
+func (c Cnt) String() string {
+	f := func(n int) string {
+		if n >= 2 {
+			return "many"
+		}
+		return fmt.Sprint(n)
+	}
+	if c.Min == c.Max {
+		return f(c.Min)
+	}
+	return f(c.Min) + ".." + f(c.Max)
+}
+
+// Counter holds the result of a Count dataflow.
+type Counter struct {
+	g      *Graph
+	in     map[*cfg.Block]Cnt
+	events map[Point]int
+	start  Point
+}
+
+// Count computes, for every point reachable from start (nil: function entry;
+// otherwise the search starts just after the point, a point with I == -1
+// denotes the beginning of its block), the minimum and maximum number of event
+// points passed on the way.  Blocks in stop are not left.
+func (g *Graph) Count(start *Point, events []Point, stop map[*cfg.Block]bool) *Counter {
+	c := &Counter{g: g, in: map[*cfg.Block]Cnt{}, events: map[Point]int{}}
+	for _, e := range events {
+		c.events[e]++
+	}
+	sb, si := g.C.Blocks[0], 0
+	if start != nil {
+		sb, si = start.B, start.I+1
+	}
+	c.start = Point{sb, si}
+	out := func(b *cfg.Block, in Cnt, from int) Cnt {
+		for i := from; i < len(b.Nodes); i++ {
+			n := c.events[Point{b, i}]
+			in.Min += n
+			in.Max += n
+		}
+		if in.Min > 2 {
+			in.Min = 2
+		}
+		if in.Max > 2 {
+			in.Max = 2
+		}
+		return in
+	}
+	type st struct {
+		c   Cnt
+		set bool
+	}
+	in := map[*cfg.Block]*st{}
+	// the start block's tail is a pseudo source
+	work := []*cfg.Block{}
+	push := func(b *cfg.Block, v Cnt) {
+		s := in[b]
+		if s == nil {
+			in[b] = &st{v, true}
+			work = append(work, b)
+			return
+		}
+		nv := s.c
+		if v.Min < nv.Min {
+			nv.Min = v.Min
+		}
+		if v.Max > nv.Max {
+			nv.Max = v.Max
+		}
+		if nv != s.c {
+			s.c = nv
+			work = append(work, b)
+		}
+	}
+	srcOut := out(sb, Cnt{}, si)
+	if !stop[sb] || start == nil {
+		for _, s := range sb.Succs {
+			push(s, srcOut)
+		}
+	}
+	for len(work) > 0 {
+		b := work[0]
+		work = work[1:]
+		if stop[b] {
+			continue
+		}
+		o := out(b, in[b].c, 0)
+		for _, s := range b.Succs {
+			push(s, o)
+		}
+	}
+	for b, s := range in {
+		c.in[b] = s.c
+	}
+	return c
+}
+
+// At returns the count just before the node at p executes; ok is false when
+// p is not reachable from the start.
+func (c *Counter) At(p Point) (Cnt, bool) {
+	var base Cnt
+	from := 0
+	viaIn, reach := c.in[p.B]
+	inStartTail := p.B == c.start.B && p.I >= c.start.I
+	if !reach && !inStartTail {
+		return Cnt{}, false
+	}
+	res := Cnt{Min: 99, Max: -1}
+	merge := func(v Cnt) {
+		if v.Min < res.Min {
+			res.Min = v.Min
+		}
+		if v.Max > res.Max {
+			res.Max = v.Max
+		}
+	}
+	walk := func(b Cnt, from int) Cnt {
+		for i := from; i < p.I && i < len(p.B.Nodes); i++ {
+			n := c.events[Point{p.B, i}]
+			b.Min += n
+			b.Max += n
+		}
+		if b.Min > 2 {
+			b.Min = 2
+		}
+		if b.Max > 2 {
+			b.Max = 2
+		}
+		return b
+	}
+	if reach {
+		merge(walk(viaIn, from))
+	}
+	if inStartTail {
+		merge(walk(base, c.start.I))
+	}
+	return res, true
+}
